@@ -129,3 +129,16 @@ Section Loops.
   Definition while_ds (extra : nat) (s : S) (cond : S -> bool) (body : S -> M S) : M S :=
     fun ds => while_f (extra + length ds) cond body s ds.
 End Loops.
+
+(* ---- extended rationals: float values that may be -inf / +inf (TheFittest._fitness, EvolutionaryAlgorithm._aim) ---- *)
+Inductive Qinf := NegInf | Fin (q : Q) | PosInf.
+Definition Qinf_leb (a b : Qinf) : bool :=
+  match a, b with
+  | NegInf, _ => true
+  | _, PosInf => true
+  | Fin x, Fin y => Qle_bool x y
+  | _, _ => false
+  end.
+Definition Qinf_ltb (a b : Qinf) : bool := negb (Qinf_leb b a).
+(* a[i] on a population of abstract individuals *)
+Definition getA {A} (d : A) (l : list A) (i : Z) : A := nth (pyidx (zlen l) i) l d.
